@@ -229,6 +229,13 @@ func (x *fiExec) step(st *fiState, ins ssa.Instruction) {
 		if b, ok := t.Call.Value.(*ssa.Builtin); ok && b.Name() == "append" && len(t.Call.Args) == 2 {
 			st.sliceLen[t] = x.lenOf(st, t.Call.Args[0]).add(x.lenOf(st, t.Call.Args[1]), 1)
 		}
+		// an index computed by a write-free helper method of the same receiver
+		// whose every result is below the length of the tracked slice
+		if g := t.Call.StaticCallee(); g != nil && !t.Call.IsInvoke() && len(t.Call.Args) > 0 && isIntType(t.Type()) {
+			if p, isParam := t.Call.Args[0].(*ssa.Parameter); isParam && p == x.fn.Params[0] && resultBelowLenField(x.P, g, x.spec.S) {
+				st.facts = append(st.facts, st.lenS.add(x.ev(st, t), -1).add(affConst(1), -1))
+			}
+		}
 	case *ssa.Store:
 		f := x.recvField(t.Addr)
 		if !x.tracked(f) {
@@ -621,4 +628,62 @@ func checkFieldInvariant(P *Program, fn *ssa.Function, spec fiSpec, walkAll bool
 		return x.paths, x.unch, nil, "more than 400000 paths"
 	}
 	return x.paths, x.unch, x.failed, ""
+}
+
+var fiBounds *Bounds
+var fiBelowMemo = map[string]bool{}
+
+// resultBelowLenField: g is a write-free method with one integer result r and
+// every return satisfies r ≤ len(recv.field) − 1 (proved by the bounds engine
+// from a load of that field that dominates the return).
+func resultBelowLenField(P *Program, g *ssa.Function, field string) bool {
+	key := g.String() + "#" + field
+	if v, ok := fiBelowMemo[key]; ok {
+		return v
+	}
+	fiBelowMemo[key] = false
+	if g.Blocks == nil || len(g.Params) == 0 || g.Signature.Results().Len() != 1 {
+		return false
+	}
+	if fiBounds == nil || fiBounds.P != P {
+		fiBounds = newBounds(P)
+	}
+	B := fiBounds
+	if !B.writeFree(g) {
+		return false
+	}
+	bf := B.of(g)
+	var loads []*ssa.UnOp
+	for _, b := range g.Blocks {
+		for _, ins := range b.Instrs {
+			if ld, ok := ins.(*ssa.UnOp); ok && ld.Op == token.MUL {
+				if fa, ok := ld.X.(*ssa.FieldAddr); ok && fa.X == ssa.Value(g.Params[0]) && fieldName(fa.X.Type(), fa.Field) == field {
+					loads = append(loads, ld)
+				}
+			}
+		}
+	}
+	n := 0
+	for _, b := range g.Blocks {
+		r, ok := b.Instrs[len(b.Instrs)-1].(*ssa.Return)
+		if !ok {
+			continue
+		}
+		n++
+		proved := false
+		for _, ld := range loads {
+			if ld.Block() != b && !ld.Block().Dominates(b) {
+				continue
+			}
+			if bf.proveAt(bf.lenAff(ld).add(bf.affOf(r.Results[0]), -1).add(affConst(1), -1), b, r) {
+				proved = true
+				break
+			}
+		}
+		if !proved {
+			return false
+		}
+	}
+	fiBelowMemo[key] = n > 0
+	return n > 0
 }
